@@ -309,9 +309,12 @@ def _lin_run(ctx, items, tag, diag):
     tf = ctx.path('qlin_%s.ndjson' % tag)
     starts, n = [], 0
     with open(tf, 'w') as f:
-        for key, cap, events in items:
+        for it in items:
+            key, cap, events = it[:3]
             starts.append(n + 1)
-            incomplete = not complete(events)
+            # the end of a history is judged only if it is a real end (goroutines blocked,
+            # watchdog), not when the harness abandoned a schedule it could not realise
+            incomplete = (not complete(events)) and (len(it) < 4 or it[3])
             write_history(f, cap, events, end=incomplete)
             n += 1 + len(events) + (1 if incomplete else 0)
     code, out = ctx.tlc('TraceQueueLin', LIN_CFG if diag else LIN_FAST, env={'TRACE': tf}, workers=1 if diag else 2,
